@@ -13,7 +13,7 @@ for d in cmd/*/; do
   p="./${d%/}"
   go build $MF -tags verif -o "$T/a" "$p" || rc=1
 done
-for p in ./cmd/puremon ./cmd/refmon; do [ -d "$p" ] && go build $MF -tags verif -gcflags=all=-d=checkptr -o "$T/a" "$p"; done
-for p in ./cmd/refmon ./cmd/concmon; do [ -d "$p" ] && go build $MF -tags verif -race -o "$T/a" "$p"; done
-for p in ./cmd/puremon ./cmd/recchild; do [ -d "$p" ] && go build $MF -tags verif -asan -o "$T/a" "$p"; done
+for p in ./cmd/pure_* ./cmd/ref_*; do [ -d "$p" ] && go build $MF -tags verif -gcflags=all=-d=checkptr -o "$T/a" "$p"; done
+for p in ./cmd/ref_* ./cmd/concmon; do [ -d "$p" ] && go build $MF -tags verif -race -o "$T/a" "$p"; done
+for p in ./cmd/pure_wire ./cmd/recchild; do [ -d "$p" ] && go build $MF -tags verif -asan -o "$T/a" "$p"; done
 exit $rc
